@@ -30,8 +30,8 @@ MIRRORS = [('enspara/tpt/core.py', None)]
 
 CONTAINERS = ['bsr_matrix', 'coo_matrix', 'csc_matrix', 'csr_matrix', 'dia_matrix', 'dok_matrix', 'lil_matrix']
 LAGS = [[1, 1], [5, 2], [10, 1]]
-TOL = 1e-9
-TIGHT = 1e-12
+TOL0 = 1e-9
+TIGHT0 = 1e-12
 
 
 # ----------------------------------------------------------------------------- generators
@@ -97,7 +97,56 @@ def gen_chain(rng, n, kind):
         a, b = (int(x) for x in rng.choice(n, size=2, replace=False))
         C[a, b] += int(rng.integers(1, 4))
         return _normalise_rows(C.tolist())
+    if kind in ('meta-rev', 'meta-nonrev'):
+        return gen_metastable(rng, kind == 'meta-rev')
     raise ValueError(kind)
+
+
+def gen_metastable(rng, reversible, n_max=8):
+    """two or three well-connected basins joined by rarely crossed barriers: in-basin weights are
+    (1..5) * 10^k, barrier weights 1..9, k in 4..7 -> barrier/in-basin ratio about 10^U(-7,-4), spectral gap
+    of that order.  Integer weights, so T = C / rowsum(C) is exact rational and (reversible case) the
+    stationary vector is rowsum(C) / sum(C) in closed form.  State labels are shuffled."""
+    nb = 2 if rng.random() < 0.7 else 3
+    sizes = [int(rng.integers(2, 5)) for _ in range(nb)]
+    while sum(sizes) > n_max:
+        sizes[int(np.argmax(sizes))] -= 1
+    n = sum(sizes)
+    k = int(rng.choice([4, 5, 5, 6, 6, 7]))
+    S = 10 ** k
+    starts = np.cumsum([0] + sizes)
+    C = [[0] * n for _ in range(n)]
+    for b in range(nb):
+        idx = list(range(starts[b], starts[b + 1]))
+        for i in idx:
+            for j in idx:
+                if reversible and j < i:
+                    continue
+                if rng.random() < 0.8 or (not reversible and idx[(idx.index(i) + 1) % len(idx)] == j) \
+                        or (reversible and j == i + 1):
+                    w = int(rng.integers(1, 6)) * S
+                    C[i][j] = w
+                    if reversible:
+                        C[j][i] = w
+    for b in range(nb - 1):
+        A = list(range(starts[b], starts[b + 1]))
+        B = list(range(starts[b + 1], starts[b + 2]))
+        for _ in range(int(rng.integers(1, 3))):
+            i, j = int(rng.choice(A)), int(rng.choice(B))
+            C[i][j] = int(rng.integers(1, 10))
+            C[j][i] = C[i][j] if reversible else int(rng.integers(1, 10))
+    perm = [int(x) for x in rng.permutation(n)]
+    C = [[C[perm[i]][perm[j]] for j in range(n)] for i in range(n)]
+    return _normalise_rows(C)
+
+
+def cond_factor(Tf):
+    """how much looser than 1e-9 a comparison may be on a slowly mixing chain: the library's own eq_probs /
+    inverse / solves lose about 1/gap digits (gap = distance of the second eigenvalue from 1).  1 for ordinary
+    chains (gap >= 1e-3), 1e-3/gap otherwise.  A wrong formula gives O(1) relative errors, far above this."""
+    d = np.sort(np.abs(1.0 - np.linalg.eigvals(Tf)))
+    gap = float(d[1]) if len(d) > 1 else 1.0
+    return max(1.0, 1e-3 / max(gap, 1e-12)), gap
 
 
 def is_reversible_pi(T, pi):
@@ -219,6 +268,12 @@ def check_committors(ctx, case, resp):
     Tf = t_float(T)
     src, snk = case['sources'], case['sinks']
     inter = [i for i in range(n) if i not in src and i not in snk]
+    fac, gap = cond_factor(Tf)
+    # committor accuracy of LU on the absorbing chain: |dq| <~ 1.6e-16/gap observed, bound 5e-15/gap
+    TOL, TIGHT = TOL0 * fac, TIGHT0 + 5e-15 / gap
+    QTOL = TOL0 + 5e-15 / gap
+    if fac > 1:
+        ctx.tag('committors slow-mixing gap<1e-%d' % int(np.floor(-np.log10(gap))))
     ctx.case({k: case[k] for k in ('T', 'sources', 'sinks')}, nontrivial=len(inter) > 0,
              tags=['committors', 'kind=' + case['kind'], 'n=%d' % n,
                    'nsrc=%d' % len(src), 'nsnk=%d' % len(snk),
@@ -246,10 +301,10 @@ def check_committors(ctx, case, resp):
         if not np.all(np.isfinite(q)):
             ctx.violation('committors not finite (%s)' % cont, dict(case, failing=cont))
             return
-        if np.any(np.abs(q[src]) > TIGHT):
+        if np.any(np.abs(q[src]) > TIGHT0):
             ctx.violation('committor not 0 on a source (%s)' % cont, dict(case, failing=cont, got=q.tolist()))
             return
-        if np.any(np.abs(q[snk] - 1.0) > TIGHT):
+        if np.any(np.abs(q[snk] - 1.0) > TIGHT0):
             ctx.violation('committor not 1 on a sink (%s)' % cont, dict(case, failing=cont, got=q.tolist()))
             return
         if np.any(q < -TIGHT) or np.any(q > 1 + TIGHT):
@@ -274,7 +329,7 @@ def check_committors(ctx, case, resp):
                          dict(case, model=mq))
         return
     qm = fr_vec(mq['ok'])
-    if np.max(np.abs(qm - dense)) > TOL:
+    if np.max(np.abs(qm - dense)) > QTOL:
         ctx.disagreement('Model Tpt.committors vs tpt.committors differ by %.3g' % np.max(np.abs(qm - dense)),
                          dict(case, model=qm.tolist(), impl=dense.tolist()))
         return
@@ -309,6 +364,10 @@ def check_mfpts(ctx, case, resp):
     n = len(T)
     Tf = t_float(T)
     lags = case['lags']
+    fac, gap = cond_factor(Tf)
+    TOL, TIGHT = TOL0 * fac, TIGHT0
+    if fac > 1:
+        ctx.tag('mfpts slow-mixing gap<1e-%d' % int(np.floor(-np.log10(gap))))
     ctx.case({k: case[k] for k in ('T', 'sink_sets', 'lags')}, nontrivial=True,
              tags=['mfpts', 'kind=' + case['kind'], 'n=%d' % n])
     m_pi = resp[0]
@@ -364,7 +423,7 @@ def check_mfpts(ctx, case, resp):
                 return fail('all-pairs mfpts differ between ndarray/populations=None and %s/populations=%s' % (cont, pops),
                             failing='all-pairs', container=cont, lag=lag, pops=pops)
         # linear in the lag
-        if np.max(np.abs(dense - lagf * base)) > TOL * sc:
+        if np.max(np.abs(dense - lagf * base)) > TOL0 * sc:
             return fail('all-pairs mfpts not linear in the lag time', failing='all-pairs', lag=lag)
         mm = resp_all[li]
         if 'ok' not in mm:
@@ -415,7 +474,7 @@ def check_mfpts(ctx, case, resp):
                             sinks=snk, container=cont, lag=lag)
         # linear in the lag
         r1 = call(tpt.mfpts, np.array(Tf, copy=True), sinks=list(snk), lagtime=1.0)
-        if 'error' in r1 or np.max(np.abs(dense - lagf * np.asarray(r1['ok']))) > TOL * sc:
+        if 'error' in r1 or np.max(np.abs(dense - lagf * np.asarray(r1['ok']))) > TOL0 * sc:
             return fail('mfpts(sinks) not linear in the lag time', failing='sinks', sinks=snk, lag=lag)
         # all-pairs column j == single sink {j}
         if len(snk) == 1:
@@ -474,16 +533,28 @@ def make_committor_cases(ctx):
             cases.append({'check': 'committors', 'kind': kind, 'T': T, 'sources': A, 'sinks': B,
                           'containers': list(CONTAINERS),
                           'argform': ARGFORMS[int(rng.integers(0, 3))], 'mode': 'random'})
+    # slowly mixing (metastable / nearly uncoupled) chains: ill-conditioned solves, tiny committors
+    for r in range(ctx.n(24, 600)):
+        kind = 'meta-rev' if r % 2 == 0 else 'meta-nonrev'
+        Tq = gen_chain(rng, 0, kind)
+        n = len(Tq)
+        for _ in range(2):
+            A, B = random_set_pair(rng, n)
+            cases.append({'check': 'committors', 'kind': kind, 'T': t_json(Tq), 'sources': A, 'sinks': B,
+                          'containers': list(CONTAINERS) if r % 3 == 0 else one_container(),
+                          'argform': ARGFORMS[int(rng.integers(0, 3))], 'mode': 'metastable'})
     return cases
 
 
 def make_mfpt_cases(ctx):
     rng = ctx.rng
     cases = []
-    for r in range(ctx.n(200, 1600)):
+    n_generic, n_meta = ctx.n(200, 1600), ctx.n(16, 400)
+    for r in range(n_generic + n_meta):
         n = 3 + (r % 8) if r < 16 else int(rng.integers(3, 11))
-        kind = KINDS[r % len(KINDS)]
+        kind = KINDS[r % len(KINDS)] if r < n_generic else ('meta-rev' if r % 2 else 'meta-nonrev')
         T = t_json(gen_chain(rng, n, kind))
+        n = len(T)
         sets = []
         for j in range(n):      # every singleton: column j of the all-pairs table
             sets.append({'sinks': [j], 'lag': LAGS[(j + r) % 3], 'containers': [CONTAINERS[(j + r) % 7]],
@@ -521,7 +592,7 @@ def run_cases(ctx, cases):
 def run(ctx):
     cases = make_committor_cases(ctx) + make_mfpt_cases(ctx)
     run_cases(ctx, cases)
-    ctx.note('tolerances', {'residual_rel': TOL, 'boundary_abs': TIGHT})
+    ctx.note('tolerances', {'residual_rel': TOL0, 'boundary_abs': TIGHT0, 'slow_mixing': 'x 1e-3/gap when gap < 1e-3'})
 
 
 def replay(ctx, data):
